@@ -37,7 +37,10 @@ func keyType(l SNode) string {
 }
 
 var intToks = []string{"5", "7", "-3"}
-var strToks = []string{"5", "bad", "kv", "7", ""}
+
+// string values include tokens with URL-significant characters (errors render paths with an escaper)
+var specialToks = []string{"a+b", "a b", "%2F/:@", "=&$?#;,", "x%y+z w"}
+var strToks = append([]string{"5", "bad", "kv", "7", ""}, specialToks...)
 
 func validValue(r *rand.Rand, typ string) string {
 	switch BaseType(typ) {
@@ -55,7 +58,9 @@ func RandPath(r *rand.Rand, sh Shape) []string {
 	names := []string{}
 	allNames(sh.Kids, &names)
 	junk := func() string {
-		switch r.Intn(7) {
+		switch r.Intn(8) {
+		case 7:
+			return specialToks[r.Intn(len(specialToks))]
 		case 0:
 			return "zz"
 		case 1:
@@ -137,6 +142,16 @@ type site struct {
 	idx    int
 	s      *SNode
 	isKey  bool
+	direct bool // the schema node is not a member of a case
+}
+
+func isDirect(sk []SNode, name string) bool {
+	for _, k := range sk {
+		if k.Kind != "choice" && k.Kind != "case" && k.Name == name {
+			return true
+		}
+	}
+	return false
 }
 
 func collect(sk []SNode, kids *[]DNode, key string, acc *[]site) {
@@ -146,7 +161,7 @@ func collect(sk []SNode, kids *[]DNode, key string, acc *[]site) {
 		if s == nil {
 			continue
 		}
-		*acc = append(*acc, site{kids, i, s, key != "" && d.Name == key})
+		*acc = append(*acc, site{kids, i, s, key != "" && d.Name == key, isDirect(sk, d.Name)})
 		switch s.Kind {
 		case "container":
 			collect(s.Kids, &d.Kids, "", acc)
@@ -197,7 +212,8 @@ func Normalize(sk []SNode, kids []DNode) []DNode {
 }
 
 // Mutate returns a seeded variation of the data tree: a node deleted, a list entry
-// duplicated under the new key "9", or a value appended to a leaf-list.
+// duplicated under the new key "9", a value appended to a leaf-list, or a list / leaf-list /
+// non-presence container (outside cases) left present but emptied.
 func Mutate(r *rand.Rand, sk []SNode, data []DNode) (string, []DNode) {
 	d := Clone(data)
 	sites := []site{}
@@ -208,7 +224,14 @@ func Mutate(r *rand.Rand, sk []SNode, data []DNode) (string, []DNode) {
 	for try := 0; try < 8; try++ {
 		st := sites[r.Intn(len(sites))]
 		node := &(*st.parent)[st.idx]
-		switch r.Intn(3) {
+		switch r.Intn(4) {
+		case 3:
+			np := st.s.Kind == "container" && !st.s.Presence
+			if !st.direct || !(st.s.Kind == "list" || st.s.Kind == "leaflist" || np) {
+				continue
+			}
+			node.Kids, node.Vals = []DNode{}, []string{}
+			return "empty " + st.s.Name, d
 		case 0:
 			if st.isKey {
 				continue
